@@ -14,7 +14,7 @@ git -C "$WT" apply "$D/patch.diff" || { echo "PATCH DOES NOT APPLY"; exit 8; }
 echo "== suite with the change"
 (cd "$WT" && PYTHONPATH="$WT" /venv/bin/python -m pytest -q -p no:cacheprovider 2>&1 | tail -1)
 echo "== demo on changed tree"
-(cd "$WT" && PYTHONPATH="$WT" /venv/bin/python "$D/demo.py" 2>&1 | tail -3); echo "   exit=${PIPESTATUS[0]} (want 1)"
+(cd "$WT" && PYTHONPATH="$WT" /venv/bin/python "$D/demo.py" >/tmp/seedtest.demo.$$ 2>&1); rc=$?; tail -3 /tmp/seedtest.demo.$$; rm -f /tmp/seedtest.demo.$$; echo "   exit=$rc (want 1)"
 git -C /repo apply "$D/patch.diff" || exit 7
 for c in "$@"; do
   echo "== check $c ($TIER) on the changed tree"
